@@ -1,10 +1,12 @@
 /-!
 Model of phylib's serialisation layer (property C18), phylib/utils/_misc.py:
-`_stringify_keys`, `_CustomEncoder.default`, `_json_custom_hook`, `_intify_keys` (JSON);
-`write_tsv` / `read_tsv` / `_try_make_number` / `_pretty_floats`, `_write_tsv_simple` /
-`_read_tsv_simple` (TSV/CSV).
-The `json`, `csv`, `base64`, number formatting/parsing libraries are transport (hypotheses of the
-theorems), exercised through the real libraries by the correspondence run.
+`_stringify_keys`, `_CustomEncoder.default`, `_json_custom_hook`, `_intify_keys` (JSON, this file);
+`write_tsv` / `read_tsv` at the level of cells (this file: field order, absent fields, empty cells);
+the character level — csv quoting and parsing, line terminators, delimiter sniffing,
+`_try_make_number`, `_pretty_floats`, `_write_tsv_simple` / `_read_tsv_simple` — in `Model/C18c.lean`;
+`write_python` / `read_python` in `Model/C18p.lean`.
+The `json` and `base64` libraries and the `repr` of floats are transport, exercised through the real
+libraries by the correspondence run.
 -/
 namespace PhyVerif.C18
 
